@@ -807,7 +807,47 @@ pub fn check_c05(tier: &str) -> i32 {
         client_stream_job("C05", false, &req, &cstreams[i].0, &cstreams[i].1, bound, st);
     });
     rep.phase("client role", st, json!({"streams": cstreams.len()}));
-    for c in ["command-between-reads", "stream-complete", "stream-ends-in-framing-error", "stream-ends-mid-frame", "client-accepts", "client-framing-error", "client-still-waiting", "client-exception"] {
+    // connection boundary: the byte stream the property quantifies over is per connection. A
+    // reply (or an unsolicited frame) cut off at every position by a reset / EOF, then a fresh
+    // connection on which an honest exchange must work
+    let st = {
+        use crate::checks::client_sm::{run_path, SmCfg};
+        use crate::refmodel::client::{Ev, MStyle};
+        let cfg = SmCfg { cap: 16, max_timeouts: None, retry_min: 3, retry_max: 12, handles: 1, decode: (0, 0, 0) };
+        let submit = Ev::Submit { handle: 0, style: MStyle::Future, timeout_ms: 50 };
+        let mut paths: Vec<Vec<Ev>> = vec![];
+        for n in 1..=12usize {
+            for end in [Ev::ReadError, Ev::Eof] {
+                // a reply to an outstanding request cut after n bytes
+                paths.push(vec![Ev::Enable(0), Ev::ConnectOk, submit.clone(), Ev::ReplyPartial(n), end.clone(), Ev::AdvanceToNext, Ev::ConnectOk, submit.clone(), Ev::ReplyOk, submit.clone(), Ev::ReplyOk]);
+                // an unsolicited frame cut after n bytes while idle
+                paths.push(vec![Ev::Enable(0), Ev::ConnectOk, Ev::ReplyPartial(n), end.clone(), Ev::AdvanceToNext, Ev::ConnectOk, submit.clone(), Ev::ReplyOk]);
+                // a complete stale frame followed by a partial one, then the boundary
+                paths.push(vec![Ev::Enable(0), Ev::ConnectOk, submit.clone(), Ev::ReplyStale(1), Ev::ReplyPartial(n), end, Ev::AdvanceToNext, Ev::ConnectOk, submit.clone(), Ev::ReplyOk]);
+            }
+        }
+        parallel(paths.len(), |i, st| {
+            let r = run_path(&cfg, &paths[i]);
+            st.evaluations += 1;
+            st.traces += 1;
+            st.transitions += paths[i].len() as u64;
+            st.class("connection-boundary");
+            st.state(&r.model);
+            st.observe(&r.obs);
+            if i % 17 == 0 {
+                st.sample(json!({"role": "client", "connection_boundary_path": format!("{:?}", paths[i])}));
+            }
+            for p in &r.problems {
+                st.violation(Violation {
+                    signature: format!("connection-boundary:{}", p.sig),
+                    summary: format!("path {:?} step {}: {}", paths[i], p.step, p.desc),
+                    replay: json!({"kind": "client-sm", "property": "C05", "cfg": cfg, "events": paths[i], "aspects": "CWTLDP"}),
+                });
+            }
+        })
+    };
+    rep.phase("client role: stream cut by the end of a connection, honest exchange on the next one", st, json!({}));
+    for c in ["connection-boundary", "command-between-reads", "stream-complete", "stream-ends-in-framing-error", "stream-ends-mid-frame", "client-accepts", "client-framing-error", "client-still-waiting", "client-exception"] {
         rep.require_class(c);
     }
     rep.assumptions.push("a frame carrying a transaction id that has not been transmitted yet is never buffered before its request leaves (tokio's select! tie, excluded in DESIGN.md section 10)".into());
@@ -1071,7 +1111,20 @@ pub fn check_c06(tier: &str) -> i32 {
         client_stream_job("C06", true, req, name, f, bound, st);
     });
     rep.phase("chunking (client role)", st, json!({"streams": resps.len()}));
-    for c in ["corruption-detected", "corruption-makes-frame-longer", "transmit-server-reply", "transmit-client-request", "trailer-corruption"] {
+    // the same over a real pty through the unmodified create_rtu_server_task (bits of the unit id,
+    // data and CRC bytes: the frame length is unchanged, so the whole frame is consumed)
+    let bits: Vec<usize> = (0..8).chain(16..64).filter(|b| thorough || b % 5 == 0).collect();
+    let (sent, problems) = crate::checks::serial_pty::rtu_crc_over_pty(&bits);
+    let mut st = Stats::default();
+    st.evaluations += sent + 1;
+    st.class("pty-production-path");
+    st.observe(&("pty", sent));
+    st.sample(json!({"transport": "pty", "frame": "read-holding unit 1", "single_bit_corruptions": sent}));
+    for (sig, desc) in problems {
+        st.violation(Violation { signature: sig, summary: desc, replay: json!({"kind": "c06-pty", "bits": bits}) });
+    }
+    rep.phase("production RTU server over a pty", st, json!({"corruptions": bits.len()}));
+    for c in ["pty-production-path", "corruption-detected", "corruption-makes-frame-longer", "transmit-server-reply", "transmit-client-request", "trailer-corruption"] {
         rep.require_class(c);
     }
     rep.exhaustive = thorough;
